@@ -532,7 +532,8 @@ class ExtendedIndexedOperand(Operand):
         if "S" in self.right:
             raw_post_byte |= 0x60
 
-        if self.left == "" or (type(self.left) != str and self.left.is_numeric() and self.left.int == 0):
+        if self.left == "" or (type(self.left) != str and self.left.is_numeric() and self.left.int == 0
+                               and "PCR" not in self.right):
             if "-" in self.right or "+" in self.right:
                 if self.right == "X+" or self.right == "Y+" or self.right == "U+" or self.right == "S+":
                     raise OperandTypeError("[{}] not allowed as an extended indirect value".format(self.right))
@@ -577,9 +578,13 @@ class ExtendedIndexedOperand(Operand):
                     post_byte_choices = [0x9C, 0x9D]
                     max_size += 2
                 else:
-                    size += 2 if self.left.is_extended() else 1
+                    wide = self.left.is_extended() or not self.left.is_8_bit()
+                    size += 2 if wide else 1
                     max_size = size
-                    raw_post_byte |= 0x9D if self.left.is_extended() else 0x9C
+                    raw_post_byte |= 0x9D if wide else 0x9C
+                    additional = NumericValue(
+                        -self.left.int if self.left.is_negative() else self.left.int, size_hint=4 if wide else 2
+                    )
             else:
                 if additional.is_negative():
                     if additional.is_8_bit():
@@ -660,7 +665,8 @@ class IndexedOperand(Operand):
         if "S" in self.right:
             raw_post_byte |= 0x60
 
-        if self.left == "" or (type(self.left) != str and self.left.is_numeric() and self.left.int == 0):
+        if self.left == "" or (type(self.left) != str and self.left.is_numeric() and self.left.int == 0
+                               and "PCR" not in self.right):
             raw_post_byte |= 0x80
             if "-" in self.right or "+" in self.right:
                 if "+" in self.right:
@@ -705,9 +711,13 @@ class IndexedOperand(Operand):
                     post_byte_choices = [0x8C, 0x8D]
                     max_size += 2
                 else:
-                    size += 2 if self.left.is_extended() else 1
+                    wide = self.left.is_extended() or not self.left.is_8_bit()
+                    size += 2 if wide else 1
                     max_size = size
-                    raw_post_byte |= 0x8D if self.left.is_extended() else 0x8C
+                    raw_post_byte |= 0x8D if wide else 0x8C
+                    additional = NumericValue(
+                        -self.left.int if self.left.is_negative() else self.left.int, size_hint=4 if wide else 2
+                    )
             else:
                 if additional.is_negative():
                     if additional.is_4_bit():
